@@ -245,6 +245,13 @@ var ok=arr.every(function(e,i){ return i==0 || arr[i-1].k<e.k || (arr[i-1].k==e.
 var objs=['b','a','c'].map(function(s){ return {toString(){ return s; }}; }).sort().join('');
 print('sort', ok, arr.map(function(e){ return e.k; }).join(''), objs, [5,25,100,1].sort().join(','), [,3,undefined,1].sort().length);
 "# },
+    Kernel { name: "template-weak-cache", kind: 's', src: r#"
+var cache=new WeakMap(), seen=new WeakSet(), created=0; function tag(strings, x){ var id=cache.get(strings); if (id===undefined){ id=++created; cache.set(strings,id); } return id+(seen.has(strings)?'s':'n')+(seen.add(strings), ''); }
+function render(x){ return tag`hello ${x} world`; } function other(){ return tag`second ${1} site`; }
+var ids=[]; for (var i=0;i<$A+3;i++){ ids.push(render(i)); var junk=[]; for (var j=0;j<25;j++) junk.push({j:j, s:'x'+j}); if (i==1) ids.push(other()); }
+ids.push(other(), (function(){ return tag`hello ${0} world`; })());
+print('template-cache', ids.join(','), created);
+"# },
     Kernel { name: "d-key-order", kind: 'd', src: r#"
 var o={}; var ks=['b','10','a','2','-1','1.5','01','z',String(2**32),'4294967294','x'+$A]; for (var i=0;i<ks.length;i++) o[ks[i]]=i; o[Symbol('s1')]=1; o[Symbol.for('reg')]=2; delete o.a; o.a='re'; o[5]=5;
 var proto={p1:1, 3:'p3', b:'shadowed'}; var c=Object.create(proto); c.own1=1; c[7]=7; c.own2=2; var fi=[]; for (var k in c) fi.push(k);
